@@ -32,9 +32,15 @@ use std::{
     pin::Pin,
     sync::{
         atomic::{AtomicUsize, Ordering},
-        Arc, Mutex, RwLock, Weak,
+        Arc, Weak,
     },
 };
+
+#[cfg(not(deadpool_verif))]
+use std::sync::{Mutex, RwLock};
+
+#[cfg(deadpool_verif)]
+use deadpool::verif::{self, SimMutex as Mutex, SimRwLock as RwLock};
 
 use deadpool::managed;
 #[cfg(not(target_arch = "wasm32"))]
@@ -322,6 +328,8 @@ impl StatementCache {
 
     /// Returns current size of this [`StatementCache`].
     pub fn size(&self) -> usize {
+        #[cfg(deadpool_verif)]
+        verif::point("pg.cache.size.load");
         self.size.load(Ordering::Relaxed)
     }
 
@@ -333,6 +341,8 @@ impl StatementCache {
     pub fn clear(&self) {
         let mut map = self.map.write().unwrap();
         map.clear();
+        #[cfg(deadpool_verif)]
+        verif::point("pg.cache.size.store");
         self.size.store(0, Ordering::Relaxed);
     }
 
@@ -350,6 +360,8 @@ impl StatementCache {
         let mut map = self.map.write().unwrap();
         let removed = map.remove(&key);
         if removed.is_some() {
+            #[cfg(deadpool_verif)]
+            verif::point("pg.cache.size.sub");
             let _ = self.size.fetch_sub(1, Ordering::Relaxed);
         }
         removed
@@ -372,6 +384,8 @@ impl StatementCache {
         };
         let mut map = self.map.write().unwrap();
         if map.insert(key, stmt).is_none() {
+            #[cfg(deadpool_verif)]
+            verif::point("pg.cache.size.add");
             let _ = self.size.fetch_add(1, Ordering::Relaxed);
         }
     }
